@@ -1,30 +1,40 @@
-//! Small models of std adapters whose generic machinery defeats CBMC's
-//! constant propagation (measured: `filter_map(Result::ok)` through
-//! `find_map`/`try_fold`/`ControlFlow` costs 500k symex steps on a 2-record
-//! concrete stream; this adapter costs 12k).
+//! Model of the adapter chain `mapping.iter().filter_map(Result::ok)` that both
+//! builders (`create_proguard_mapper`, `ProguardCache::write`) start from.
+//! tools/instrument.py rewrites `.filter_map(Result::ok)` to `.verif_ok_only()`.
+//!
+//! * Outside Kani (`--cfg proguard_verif`, native validation of the models) it is
+//!   literally `filter_map(Result::ok)`.
+//! * Under Kani it yields the `Ok` payloads of the *injected* record stream
+//!   (kani/support/inject.rs) and skips the `Err` items - the same semantics -
+//!   without ever materialising a `Result<ProguardRecord, ParseError>`:
+//!   measured, Kani compiles reads through that niche-encoded Result into casts
+//!   whose discriminant CBMC's symbolic execution cannot constant-fold, so every
+//!   record kind and every string of a concrete stream became symbolic and the
+//!   builders did not finish (and std's FilterMap goes through
+//!   find_map/try_fold/ControlFlow: 500k symex steps for a 2-record stream).
 
-/// Model of `Iterator::filter_map(Result::ok)`: yields the `Ok` payloads, skips `Err`s.
-pub struct OkOnly<I> {
-    iter: I,
-}
-
-impl<T, E, I: Iterator<Item = Result<T, E>>> Iterator for OkOnly<I> {
-    type Item = T;
-    fn next(&mut self) -> Option<T> {
-        loop {
-            match self.iter.next() {
-                None => return None,
-                Some(Ok(v)) => return Some(v),
-                Some(Err(_)) => {}
-            }
-        }
-    }
-}
-
+#[cfg(not(kani))]
 pub trait OkOnlyExt: Iterator + Sized {
-    fn verif_ok_only(self) -> OkOnly<Self> {
-        OkOnly { iter: self }
+    fn verif_ok_only<T, E>(self) -> core::iter::FilterMap<Self, fn(Result<T, E>) -> Option<T>>
+    where
+        Self: Iterator<Item = Result<T, E>>,
+    {
+        self.filter_map(Result::ok)
     }
 }
-
+#[cfg(not(kani))]
 impl<I: Iterator> OkOnlyExt for I {}
+
+#[cfg(kani)]
+pub trait OkOnlyExt {
+    type Out;
+    fn verif_ok_only(self) -> Self::Out;
+}
+
+#[cfg(kani)]
+impl<'s> OkOnlyExt for crate::mapping::ProguardRecordIter<'s> {
+    type Out = super::inject::InjectedOk<'s>;
+    fn verif_ok_only(self) -> Self::Out {
+        super::inject::InjectedOk::new(crate::mapping::verif_harness::remaining(&self))
+    }
+}
